@@ -29,6 +29,9 @@ import (
 const (
 	c18T1 = 50 * time.Millisecond
 	c18T2 = 150 * time.Millisecond
+	// c18MaxLag: see runC18.fail - the slack the fault plan has against the shortest protocol window (the
+	// delayed ACK lands 40 ms after the sender's T2 expiry)
+	c18MaxLag = 30 * time.Millisecond
 )
 
 type c18Fault struct {
@@ -70,6 +73,7 @@ type c18Box struct {
 	attempts  map[string]int
 	yieldsAt  map[string]int // host yields seen when the header's first transmission happened
 	maxTx     map[string]int
+	lag       *vt.Lag // scheduling lag of this process (see vt.Lag); the box reports its own late sleeps to it
 }
 
 func newC18Box(faults []*c18Fault) *c18Box {
@@ -240,7 +244,11 @@ func (b *c18Box) pump(dir string, from, to net.Conn, done chan<- struct{}) {
 		for i := 0; i < n; i++ {
 			out, delay := b.process(dir, buf[i])
 			if delay > 0 {
+				st := time.Now()
 				time.Sleep(delay)
+				if b.lag != nil {
+					b.lag.Note(time.Since(st) - delay)
+				}
 			}
 			if len(out) > 0 {
 				if _, werr := to.Write(out); werr != nil {
@@ -355,6 +363,9 @@ func runC18(rt *rapid.T) {
 		faults = append(faults, f)
 	}
 	box := newC18Box(faults)
+	lag := vt.StartLag()
+	defer lag.Stop()
+	box.lag = lag
 
 	// the middlebox accept loop
 	ln, err := nw.Listen("mbox:1")
@@ -420,7 +431,15 @@ func runC18(rt *rapid.T) {
 		for _, x := range faults {
 			fs = append(fs, x.String())
 		}
-		rt.Fatalf("C18 violated (retry limit %d, faults %v): %s\nline:\n  %s\nat equipment: %v\nat host: %v", rty, fs, fmt.Sprintf(f, a...), lg, atEquip.snapshot(), atHost.snapshot())
+		// REAL time: the fault plan is sound only if the harness keeps its own schedule (a delayed ACK must
+		// land while the sender waits for EOT; the box must forward within T1/T2). If this process was
+		// scheduled more than c18MaxLag late during the case, the line saw timing faults nobody planned
+		// (a late EOT, two grants in flight - outside what E4 bounds): inconclusive, not a violation.
+		if lag.Max() > c18MaxLag {
+			ev.Count("inconclusive_starved_machine", 1)
+			rt.Skip(fmt.Sprintf("inconclusive: this process was scheduled %v late (limit %v)", lag.Max(), c18MaxLag))
+		}
+		rt.Fatalf("C18 violated (retry limit %d, faults %v, worst scheduling lag %v): %s\nline:\n  %s\nat equipment: %v\nat host: %v", rty, fs, lag.Max(), fmt.Sprintf(f, a...), lg, atEquip.snapshot(), atHost.snapshot())
 	}
 	if err := eq.Open(context.Background(), hsms.OpenBackground); err != nil {
 		rt.Fatalf("VERIF-INFRA: %v", err)
